@@ -48,7 +48,10 @@ def pick(tier, seed):
     # always-present regression core: the off-by-one classes the property names
     core = [((2, 1), 1, "#I", "I"), ((3,), 0, "#", "I"), ((3,), 2, "I", "#"), ((1, 2), 1, "$", "I"), ((2, 1), 1, "I", "$"),
             ((1, 1, 1), 1, "I$", "$I"), ((2, 2), 2, "I$", "I#"), ((2, 2), 1, "#I", "$I"), ((3,), 1, "M", "M"), ((1, 2), 0, "#", "$M"),
-            ((2, 1), 2, "I$", "#"), ((4,), 3, "II", "#")]
+            ((2, 1), 2, "I$", "#"), ((4,), 3, "II", "#"), ((3,), 2, "", "$"), ((3,), 0, "$", ""), ((1, 2), 2, "$I", "$"), ((2, 1), 0, "$", "I$"),
+            ((4,), 2, "II", ""), ((2, 2), 2, "#I", ""), ((1, 2), 1, "$I", ""), ((3,), 1, "", "II")]
+    # exception polarity (is_context = false) for every shape whose index is a multiple of 3: make sure the two-element
+    # before/after parts are among them
     n_extra = 8 if tier == "quick" else 110
     # stratify: every (before-pattern, after-pattern) class gets a chance before repeats
     rnd.shuffle(shapes)
@@ -191,7 +194,7 @@ fn @name@() {
 """, name=name, comp=list(comp), t=t, si=si, gi=gi, rsi=rsi, rgi=rgi, benv=bp or "", aenv=ap or "",
             xdecl="\n".join("    let %s = any_seg();" % x for x in xs), distinct=distinct, decl="\n".join(decl), build_w=build_w, build_wr=build_wr,
             xs=", ".join(xs), starts=", ".join("true" if s else "false" for s in starts),
-            isctx="true" if idx % 3 else "false",
+            isctx="false" if (idx % 3 == 0 or idx in (16, 17, 18, 19)) else "true",
             befdecl=("let bef = [%s];" % bef_items) if bp else "", aftdecl=("let aft = [%s];" % aft_items) if ap else "",
             oracle_b=oracle("before", bp, bnames, n, t) if bp else "", oracle_a=oracle("after", ap, anames, n, t) if ap else "",
             call_b=call_b, call_a=call_a,
@@ -200,7 +203,7 @@ fn @name@() {
         hs.append(G.H(name, "environment-selection", "subrule", code, shared=[G.SUBRULE_SHARED, SHARED],
                       functions=["SubRule::match_before_env", "SubRule::match_after_env", "SubRule::context_match", "SubRule::context_match_ipa", "SubRule::context_match_matrix", "SubRule::match_modifiers", "SegPos::increment", "SegPos::reversed", "Word::in_bounds/out_of_bounds"],
                       symbolic="%d word bundles + %d context bundles, matrix polarities, stress/tone" % (n, sum(1 for k in bp + ap if k == "I")),
-                      shape="word %s target %d env `%s _ %s` (%s)" % (list(comp), t, bp, ap, "context" if idx % 3 else "exception"), unwind=unwind, stubs=STUBS, weight=3))
+                      shape="word %s target %d env `%s _ %s` (%s)" % (list(comp), t, bp, ap, "exception" if (idx % 3 == 0 or idx in (16, 17, 18, 19)) else "context"), unwind=unwind, stubs=STUBS, weight=3))
 
     # lemma: the reversed word the harnesses build by hand is what Word::reverse returns, and positions correspond
     lemma_shapes = [(2, 1), (1, 2), (1, 1, 1), (3,)] if tier == "quick" else [tuple(c) for n in (3, 4) for c in compositions(n)]
@@ -253,7 +256,7 @@ fn c03_twin_reach() {
     total = len(all_shapes())
     return {
         "harnesses": hs, "cap_s": 1800, "jobs": 12,
-        "bounds": ["words of 3 and 4 segments in every syllabification, every target position, environments with up to 2 elements per side from {IPA, one-slot matrix, #, $} (# only at the periphery): %d shapes in all, %d decided this run (12 fixed regression shapes + seeded stratified draw; VERIF_SEED=%d)" % (total, len(hs) - len(lemma_shapes) - 1, seed),
+        "bounds": ["words of 3 and 4 segments in every syllabification, every target position, environments with up to 2 elements per side from {IPA, one-slot matrix, #, $} (# only at the periphery): %d shapes in all, %d decided this run (20 fixed regression shapes + seeded stratified draw; VERIF_SEED=%d)" % (total, len(hs) - len(lemma_shapes) - 1, seed),
                    "environment states are passed as stack arrays (R5); unwind %d" % unwind, "every third shape runs the exception polarity (is_context=false)"],
         "outside": ["the six-line combinator SubRule::match_contexts_and_exceptions itself (context AND NOT exception over environment sets): it deep-clones Vec<Item> and a reversed Word, whose recursive clone/drop glue does not finish; the harness recombines the two halves the same way",
                     "the left-to-right scan ('as already rewritten'), input matching and the rewrite itself (SubRule::apply -> input_match_at -> substitution): whole-rule application does not finish under CBMC",
